@@ -391,4 +391,33 @@ mod verif_proto {
     }
     static mut WAITS: usize = 0;
     static mut COND: Option<*const Condvar> = None;
+
+    // one event for an unknown entry arrives, then nothing: the thread consumes it and sleeps again
+    // @h name=proto_c15_one_event_then_idle tier=quick cap=1 timeout=900 props=C15 kind=bounded_termination role=one+event+then+idle
+    #[kani::proof]
+    #[kani::unwind(5)]
+    fn proto_c15_one_event_then_idle() { idle_case(1, false); }
+
+    // a watcher learns that the reloader is gone: every way of sending to a dead reloader reports Disconnected
+    // @h name=proto_c15_send_to_dead_reloader tier=quick cap=1 timeout=600 props=C15 role=sending+events+to+a+stopped+reloader
+    #[kani::proof]
+    #[kani::unwind(5)]
+    fn proto_c15_send_to_dead_reloader() {
+        use crate::source::OwnedDirEntry;
+        let (tx, rx) = channel::unbounded::<Events>();
+        let sender = EventSender(tx);
+        drop(rx);
+        let f = || OwnedDirEntry::File("q".into(), "x".into());
+        assert!(sender.send(f()).is_err());
+        assert!(sender.send_multiple(Some(f())).is_err(), "a watcher is not told that the reloader is gone (one event)");
+        assert!(sender.send_multiple(vec![f(), f()]).is_err(), "a watcher is not told that the reloader is gone (batch)");
+        // a batch that turns out to be empty after filtering (paths that map to no id): the built-in
+        // filesystem watcher relies on this call failing to release itself
+        // (same iterator shape as NotifyEventHandler::handle_event: flat_map + filter, no exact upper bound;
+        //  an iterator that *knows* it is empty is documented to return Ok(0) without touching the channel)
+        let none = vec![f()].into_iter().flat_map(|e| vec![e]).filter(|_| false);
+        assert!(none.size_hint().1 != Some(0) && none.size_hint().1 != Some(1));
+        assert!(sender.send_multiple(none).is_err(), "a watcher whose events map to no id never learns that the reloader is gone");
+        kani::cover!(true);
+    }
 }
